@@ -59,6 +59,16 @@ CHECKS = {
    text="One fault of 11 classes is injected into a valid generated program at a generated position (semantic faults at live positions only: taken branches, invoked macros, loops with count >= 1; syntax faults anywhere). In-process runs (volume) demand a diagnostic at the injector's file/line and, for semantic classes, column; CLI runs of `mos build -e Short` with listing and symbols enabled and a target directory pre-populated with sentinel files demand exit status 1, the located diagnostic on stdout and a byte- and mtime-identical target directory.",
    note="Single-file projects (faults inside imported files are not generated yet). The diagnostic's wording is not judged, only its location; columns are accepted anywhere inside the offending statement where the property does not single out a token. The base program is verified to assemble before injection.",
    ref="§5 C04"),
+ "C09": dict(
+   technique="proptest over bank/segment configurations; oracle = independent bank layout model (expected bytes of every output file, or rejection) compared with what `mos build` writes",
+   text="Generated configurations of 0-4 banks and 1-6 non-empty segments (absolute and segments.x.start/end-relative placement incl. overlaps, adjacency, zero page and past-$FFFF, pc, write, bank incl. unknown/none) x output format x output filename are built by the real executable in scratch projects; the files in the target directory must equal the model's expectation byte for byte, or the build must fail with exit status 1 and write nothing.",
+   note="The model is written from the property statement. Corners where the property names no outcome (prg output combined with a bank filename or an empty first bank, a lone bank-less segment next to bank definitions, unresolvable start chains) are counted as unspecified and not judged.",
+   ref="§5 C09"),
+ "C10": dict(
+   technique="proptest over multi-file projects; metamorphic oracle: N repeated builds (in-process with fresh hash seeds, and fresh `mos build` processes) must be identical",
+   text="Valid and invalid multi-file projects are built 8 times in-process (image, listings, VICE text, unsorted diagnostic sequence) and 6 times as fresh processes (stdout, exit status, every file in the target directory); any difference is a violation. Campaigns with the same undefined name at several places, clashing `*` imports and equal file stems in two directories target the places where hash order can leak.",
+   note="Probabilistic detection: a leak of hash order among k equally ranked items is seen with probability about 1-(1/k!)^(N-1) per case.",
+   ref="§5 C10"),
 }
 
 NOT_YET = {
